@@ -459,7 +459,9 @@ fn gen_random(rng: &mut rand::rngs::StdRng) -> Value {
         }
     }
     for op in &ops {
-        net.step(op);
+        if vcommon::guard(|| net.step(op)).is_err() {
+            return json!({"n": n, "t": t, "slm": slm, "fifo": fifo, "ops": ops});
+        }
     }
     let mut guard = 0;
     while ops.len() < len + 12 && guard < 1000 {
@@ -496,7 +498,14 @@ fn gen_random(rng: &mut rand::rngs::StdRng) -> Value {
                 }
             }
         };
-        let evs = net.step(&op);
+        // a panic of the code under test while generating: keep the op, the real run records the panic as data
+        let evs = match vcommon::guard(|| net.step(&op)) {
+            Ok(e) => e,
+            Err(_) => {
+                ops.push(op);
+                break;
+            }
+        };
         if evs.iter().any(|e| e["e"] == "skip") {
             continue;
         }
@@ -585,7 +594,9 @@ fn exhaustive(out: &mut Out, depth: usize, variant: u64, slm: bool) {
         let mut net = Net::new(3, 1, &[slm, slm, slm], fifo);
         let mut subd = [false; 3];
         for op in prefix.iter().chain(ops.iter()) {
-            net.step(op);
+            if vcommon::guard(|| net.step(op)).is_err() {
+                return vec![]; // the run of this prefix records the panic
+            }
             if op["a"] == "sub" {
                 subd[op["x"].as_u64().unwrap() as usize] = true;
             }
@@ -611,15 +622,15 @@ fn exhaustive(out: &mut Out, depth: usize, variant: u64, slm: bool) {
     }
     let mut stack: Vec<Vec<Value>> = vec![vec![]];
     while let Some(ops) = stack.pop() {
-        if ops.len() == depth {
+        let en = if ops.len() < depth { enabled(&prefix, &ops, fifo, slm) } else { vec![] };
+        if ops.len() == depth || en.is_empty() {
             let mut all = prefix.clone();
             all.extend(ops);
             all.push(json!({"a": "flush"}));
             run_fixed(out, &json!({"n": 3, "t": 1, "slm": [slm, slm, slm], "fifo": fifo, "ops": all}));
             continue;
         }
-        for e in enabled(&prefix, &ops, fifo, slm) {
-            // unsubscribing is only interesting after something happened
+        for e in en {
             let mut o = ops.clone();
             o.push(e);
             stack.push(o);
